@@ -830,6 +830,9 @@ func firstAccount(w *world) string {
 
 func main() {
 	chainutil.Init()
+	// signature pre-validation of a block's transactions uses runtime.NumCPU() spinning goroutines; two are enough
+	// for blocks of <= 5 transactions and leave the shared machine alone (same code path)
+	evm.VerifSetValidateRoutines(2)
 	if len(os.Args) < 2 {
 		fmt.Fprintln(os.Stderr, "usage: adminop traces.json | adminop -probe name")
 		os.Exit(2)
